@@ -2702,6 +2702,35 @@ impl<T: Storage> Raft<T> {
             return false;
         }
 
+        // Membership changes that are committed but not applied yet may already be
+        // in the application's hands; `apply_conf_change` for them would then act on
+        // the configuration this snapshot brings. Leave the snapshot for later (the
+        // leader sends it again once it learns it was not installed). Entries that
+        // cannot be read are covered by an earlier snapshot and need no such call.
+        if self.raft_log.applied < self.raft_log.committed {
+            let mut found = false;
+            let _ = self.raft_log.scan(
+                self.raft_log.applied + 1,
+                self.raft_log.committed + 1,
+                self.max_committed_size_per_ready,
+                GetEntriesContext(GetEntriesFor::TransferLeader),
+                |ents| {
+                    found = ents.iter().any(|e| {
+                        e.get_entry_type() == EntryType::EntryConfChange
+                            || e.get_entry_type() == EntryType::EntryConfChangeV2
+                    });
+                    !found
+                },
+            );
+            if found {
+                warn!(
+                    self.logger,
+                    "cannot restore snapshot at term {} since there are still pending configuration changes to apply", self.term
+                );
+                return false;
+            }
+        }
+
         self.raft_log.restore(snap);
         let cs = self
             .r
